@@ -86,6 +86,9 @@ def main(argv=None):
         except AssertionError as e:
             print('REPRODUCED: %s' % (e or case.get('text', 'assertion failed')))
             return 1
+        except (SyntaxError, NameError, ImportError) as e:
+            print('ERROR in the replay snippet itself: %s: %s' % (type(e).__name__, e))
+            return 2
         except Exception as e:
             print('REPRODUCED: %s: %s' % (type(e).__name__, e))
             return 1
